@@ -154,6 +154,59 @@ def flatten(eqs):
     return out
 
 
+_INT_REQ = {}
+
+
+def int_required(eq):
+    """(prefix, property) pairs whose C type must be integral for the
+    generated code to compile: values assigned to a variable declared
+    int/long/unsigned, or used as an array index."""
+    import ast
+    import textwrap
+    key = type(eq)
+    if key in _INT_REQ:
+        return _INT_REQ[key]
+    found = set()
+    for h in T.ARRAY_HOOKS:
+        m = getattr(eq, h, None)
+        if m is None:
+            continue
+        try:
+            tree = ast.parse(textwrap.dedent(inspect.getsource(m)))
+        except Exception:  # noqa
+            continue
+        ints = set()
+        for node in ast.walk(tree):
+            if isinstance(node, ast.Assign) and isinstance(
+                    node.value, ast.Call) and getattr(
+                    node.value.func, 'id', None) == 'declare' and \
+                    node.value.args and isinstance(node.value.args[0],
+                                                   ast.Constant) and \
+                    str(node.value.args[0].value).split('(')[0].strip() in (
+                        'int', 'long', 'unsigned int', 'unsigned long'):
+                for t in node.targets:
+                    for n in ast.walk(t):
+                        if isinstance(n, ast.Name):
+                            ints.add(n.id)
+
+        def arr(n):
+            if isinstance(n, ast.Subscript) and isinstance(n.value, ast.Name) \
+                    and n.value.id[:2] in ('d_', 's_'):
+                return (n.value.id[0], n.value.id[2:])
+            return None
+        for node in ast.walk(tree):
+            if isinstance(node, ast.Assign) and len(node.targets) == 1 and \
+                    isinstance(node.targets[0], ast.Name) and \
+                    node.targets[0].id in ints and arr(node.value):
+                found.add(arr(node.value))
+            if isinstance(node, ast.Subscript):
+                for sub in ast.walk(node.slice):
+                    if arr(sub):
+                        found.add(arr(sub))
+    _INT_REQ[key] = found
+    return found
+
+
 def static_check(cls, dim, with_solid, clean, opts, codegen=True):
     """Tier A.  Returns list of (kind, what)."""
     probs = []
@@ -180,8 +233,22 @@ def static_check(cls, dim, with_solid, clean, opts, codegen=True):
                                 traceback.format_exc()[-300:])]
         arrays = {pa.name: set(pa.properties) | set(pa.constants)
                   for pa in pas}
+        ctypes = {pa.name: {p: a.get_c_type()
+                            for p, a in pa.properties.items()}
+                  for pa in pas}
         for eq in flatten(eqs):
             d, ss, idd, iss = T.equation_needs(eq)
+            for pre, prop in int_required(eq):
+                for an in ([eq.dest] if pre == 'd' else (eq.sources or [])):
+                    ct = ctypes.get(an, {}).get(prop)
+                    if ct in ('double', 'float'):
+                        probs.append((
+                            'equation-needs-integer-property:%s:%s' % (
+                                type(eq).__name__, prop),
+                            '%s reads %s_%s of %r into an integer / uses it '
+                            'as an index, but the property has C type %s: '
+                            'the generated code does not compile' % (
+                                type(eq).__name__, pre, prop, an, ct)))
             if eq.dest not in arrays:
                 probs.append(('unknown-dest', '%s dest %r' % (
                     type(eq).__name__, eq.dest)))
